@@ -301,21 +301,27 @@ Definition handle_req (st : state) (c : N) (r : req) : state * option smsg :=
     | Some x => (st, Some (SDmx rid u (u_aprio x) (u_buf x)))
     end
   | RReg rid u on =>
-    let '(sv1, x) := match find_uni (sv_unis sv) u with
-                     | Some x => (sv, x)
-                     | None => let x := new_uni sv u in (with_unis sv (sv_unis sv ++ [x]), x)
-                     end in
     if on then
+      (* REGISTER: GetUniverseOrCreate + AddSinkClient *)
+      let '(sv1, x) := match find_uni (sv_unis sv) u with
+                       | Some x => (sv, x)
+                       | None => let x := new_uni sv u in (with_unis sv (sv_unis sv ++ [x]), x)
+                       end in
       let x1 := {| u_id := u_id x; u_htp := u_htp x; u_name := u_name x; u_buf := u_buf x; u_aprio := u_aprio x;
                    u_srcs := u_srcs x; u_sinks := if memb c (u_sinks x) then u_sinks x else u_sinks x ++ [c] |} in
       (set_sv st (with_unis sv1 (set_uni (sv_unis sv1) x1)), Some (SOk rid))
     else
-      let had := memb c (u_sinks x) in
-      let x1 := {| u_id := u_id x; u_htp := u_htp x; u_name := u_name x; u_buf := u_buf x; u_aprio := u_aprio x;
-                   u_srcs := u_srcs x; u_sinks := remv c (u_sinks x) |} in
-      let g := if had && negb (uni_active x1) then add_gc (sv_gc sv1) u else sv_gc sv1 in
-      (set_sv st {| sv_unis := set_uni (sv_unis sv1) x1; sv_gc := g; sv_prefs := sv_prefs sv1;
-                    sv_cdata := sv_cdata sv1; sv_alive := sv_alive sv1 |}, Some (SOk rid))
+      (* UNREGISTER: GetUniverse; nothing (but the Ack) when the universe does not exist *)
+      match find_uni (sv_unis sv) u with
+      | None => (st, Some (SOk rid))
+      | Some x =>
+        let had := memb c (u_sinks x) in
+        let x1 := {| u_id := u_id x; u_htp := u_htp x; u_name := u_name x; u_buf := u_buf x; u_aprio := u_aprio x;
+                     u_srcs := u_srcs x; u_sinks := remv c (u_sinks x) |} in
+        let g := if had && negb (uni_active x1) then add_gc (sv_gc sv) u else sv_gc sv in
+        (set_sv st {| sv_unis := set_uni (sv_unis sv) x1; sv_gc := g; sv_prefs := sv_prefs sv;
+                      sv_cdata := sv_cdata sv; sv_alive := sv_alive sv |}, Some (SOk rid))
+      end
   | RMode rid u h =>
     match find_uni (sv_unis sv) u with
     | None => (st, Some (SFail rid E_UNIVERSE))
